@@ -55,6 +55,16 @@ components: {securitySchemes: {oid: {type: openIdConnect, openIdConnectUrl: "htt
 paths:
   /a: {get: {operationId: getA, security: [{oid: []}], responses: {"200": {description: ok}}}}
 `,
+	// a member no Go name can be made of: refused while the IR is built
+	"unnameable": `openapi: 3.0.3
+info: {title: t, version: "1"}
+paths:
+  /a:
+    get:
+      operationId: getA
+      responses:
+        "200": {description: ok, content: {application/json: {schema: {type: object, properties: {"_": {type: integer}, ok: {type: string}}}}}}
+`,
 	"route": `openapi: 3.0.3
 info: {title: t, version: "1"}
 paths:
@@ -214,8 +224,15 @@ func runScenario(ogenBin string, scn scenario, dir string) runResult {
 	if s, ok := specFor[scn.FailAt]; ok {
 		content = s
 	}
+	if scn.FailAt == "expand_route" {
+		content = specFor["route"]
+	}
 	os.WriteFile(spec, []byte(content), 0o644)
 	args := []string{"--target", target, "--package", "api"}
+	if scn.FailAt == "package_invalid" {
+		// a package name no Go file can declare
+		args = []string{"--target", target, "--package", "my-pkg"}
+	}
 	if scn.Clean {
 		args = append(args, "--clean")
 	}
@@ -237,6 +254,10 @@ func runScenario(ogenBin string, scn scenario, dir string) runResult {
 		args = append(args, "--config", filepath.Join(dir, "cfg.yml"))
 	case "config_feature_disable":
 		os.WriteFile(filepath.Join(dir, "cfg.yml"), []byte("generator:\n  features:\n    disable:\n      - paths/clients\n"), 0o644)
+		args = append(args, "--config", filepath.Join(dir, "cfg.yml"))
+	case "expand_route":
+		// the expanded document is asked for inside the target; the run fails when routes are built
+		os.WriteFile(filepath.Join(dir, "cfg.yml"), []byte("expand: "+filepath.Join(target, "expanded.yml")+"\n"), 0o644)
 		args = append(args, "--config", filepath.Join(dir, "cfg.yml"))
 	case "config_type":
 		os.WriteFile(filepath.Join(dir, "cfg.yml"), []byte("generator:\n  convenient_errors: [1]\n"), 0o644)
